@@ -7,3 +7,784 @@ Open Scope string_scope. Open Scope list_scope.
 (* pkg/build's private copy of packageNameRegex is the resolver's *)
 Lemma lock_regex_is_resolver_regex : lock_package_name_regex = package_name_regex.
 Proof. reflexivity. Qed.
+
+(* ---- small facts ------------------------------------------------------------ *)
+Lemma sapp_nil_r (s : string) : (s ++ "")%string = s.
+Proof. induction s as [|c s IH]; simpl; [reflexivity | rewrite IH; reflexivity]. Qed.
+
+Lemma smem_In x s : smem x s = true <-> In x s.
+Proof.
+  unfold smem. rewrite existsb_exists. split.
+  - intros (y & Hy & E). apply String.eqb_eq in E. subst. exact Hy.
+  - intro H. exists x. split; [exact H | apply String.eqb_refl].
+Qed.
+Lemma smem_false x s : smem x s = false <-> ~ In x s.
+Proof. rewrite <- smem_In. destruct (smem x s); split; congruence. Qed.
+
+Lemma nv_eqb_eq a b : nv_eqb a b = true <-> a = b.
+Proof.
+  destruct a as [a1 a2], b as [b1 b2]. unfold nv_eqb. simpl.
+  rewrite andb_true_iff, !String.eqb_eq. split; [intros [-> ->]; reflexivity | intro E; inversion E; auto].
+Qed.
+Lemma nv_mem_In x l : nv_mem x l = true <-> In x l.
+Proof.
+  unfold nv_mem. rewrite existsb_exists. split.
+  - intros (y & Hy & E). apply nv_eqb_eq in E. subst. exact Hy.
+  - intro H. exists x. split; [exact H | apply nv_eqb_eq; reflexivity].
+Qed.
+
+(* ---- validators decide their Props ------------------------------------------- *)
+Lemma same_members_b_iff a b : same_members_b a b = true <-> SameMembers a b.
+Proof.
+  unfold same_members_b, SameMembers. rewrite andb_true_iff, !forallb_forall. split.
+  - intros [H1 H2] x. split; intro H; [apply nv_mem_In, H1 | apply nv_mem_In, H2]; exact H.
+  - intro H. split; intros x Hx; apply nv_mem_In, H; exact Hx.
+Qed.
+
+Lemma index_sound_b_iff pin r0 rest idx :
+  index_sound_b pin r0 rest idx = true <-> IndexSound pin r0 rest idx.
+Proof.
+  unfold index_sound_b, IndexSound. rewrite forallb_forall. split.
+  - intros H e He. specialize (H e He). unfold index_entry_ok in H.
+    apply existsb_exists in H. destruct H as (n & Hn & H). apply andb_true_iff in H. destruct H as [E F].
+    apply String.eqb_eq in E. exists n. split; [exact Hn|]. split; [exact E|].
+    intros r Hr. rewrite forallb_forall in F. specialize (F r Hr). apply andb_true_iff in F.
+    destruct F as [F1 F2]. split; [apply smem_In; exact F1 | apply String.eqb_eq; exact F2].
+  - intros H e He. destruct (H e He) as (n & Hn & E & F). unfold index_entry_ok.
+    apply existsb_exists. exists n. split; [exact Hn|]. apply andb_true_iff. split; [apply String.eqb_eq; exact E|].
+    apply forallb_forall. intros r Hr. destruct (F r Hr) as [F1 F2].
+    apply andb_true_iff. split; [apply smem_In; exact F1 | apply String.eqb_eq; exact F2].
+Qed.
+
+Lemma sort_strings_sorted l : StronglySorted sle (sort_strings l).
+Proof. apply (isort_sorted (fun x : string => x)). Qed.
+Lemma sort_strings_perm l : Permutation l (sort_strings l).
+Proof. apply (isort_perm (fun x : string => x)). Qed.
+Lemma sorted_strings_unique l l' :
+  StronglySorted sle l -> StronglySorted sle l' -> Permutation l l' -> l = l'.
+Proof. intros S S' P. apply (sorted_perm_unique (fun x : string => x)); auto. Qed.
+
+Lemma arch_lock_exact_b_iff pin r l : arch_lock_exact_b pin r l = true <-> ArchLockExact pin r l.
+Proof.
+  unfold arch_lock_exact_b, ArchLockExact.
+  rewrite (list_eqb_spec String.eqb String.eqb_eq). split.
+  - intros ->. split; [apply sort_strings_sorted | apply Permutation_sym, sort_strings_perm].
+  - intros [S P]. apply sorted_strings_unique; [exact S | apply sort_strings_sorted |].
+    rewrite P. apply sort_strings_perm.
+Qed.
+
+Lemma ranges_tile_b_iff sp sg ct dt total : ranges_tile_b sp sg ct dt total = true <-> RangesTile sp sg ct dt total.
+Proof.
+  unfold ranges_tile_b, RangesTile. destruct sp;
+    rewrite !andb_true_iff, ?Z.eqb_eq, ?Z.leb_le; tauto.
+Qed.
+
+(* ---- c09_ranges ---------------------------------------------------------------- *)
+Lemma slice_mid (a b c : list N) :
+  slice (Z.of_nat (List.length a)) (Z.of_nat (List.length a) + Z.of_nat (List.length b) - 1) (a ++ b ++ c) = b.
+Proof.
+  unfold slice.
+  replace (Z.to_nat (Z.of_nat (List.length a) + Z.of_nat (List.length b) - 1 + 1 - Z.of_nat (List.length a)))
+    with (List.length b) by lia.
+  rewrite Nat2Z.id. rewrite skipn_app, skipn_all, Nat.sub_diag. simpl.
+  rewrite firstn_app, firstn_all, Nat.sub_diag. simpl. apply app_nil_r.
+Qed.
+
+Lemma ranges_exact sha1 sha256 (sig ctl dat : list N) :
+  let e := expand sha1 sha256 sig ctl dat in
+  let file := sig ++ ctl ++ dat in
+  (signature_emitted e = false <-> sig = []) /\
+  (signature_emitted e = true -> slice (n_lo (signature_nums e)) (n_hi (signature_nums e)) file = sig) /\
+  slice (n_lo (control_nums e)) (n_hi (control_nums e)) file = ctl /\
+  slice (n_lo (data_nums e)) (n_hi (data_nums e)) file = dat /\
+  (ctl <> [] -> dat <> [] ->
+   RangesTile (signature_emitted e) (signature_nums e) (control_nums e) (data_nums e) (Z.of_nat (List.length file))).
+Proof.
+  intros e file.
+  assert (Hs : n_lo (signature_nums e) = 0%Z /\ n_hi (signature_nums e) = (Z.of_nat (List.length sig) - 1)%Z) by (split; reflexivity).
+  assert (Hc : n_lo (control_nums e) = Z.of_nat (List.length sig) /\
+               n_hi (control_nums e) = (Z.of_nat (List.length sig) + Z.of_nat (List.length ctl) - 1)%Z) by (split; reflexivity).
+  assert (Hd : n_lo (data_nums e) = (Z.of_nat (List.length sig) + Z.of_nat (List.length ctl))%Z /\
+               n_hi (data_nums e) = (Z.of_nat (List.length sig) + Z.of_nat (List.length ctl) + Z.of_nat (List.length dat) - 1)%Z) by (split; reflexivity).
+  assert (He : signature_emitted e = negb (Z.of_nat (List.length sig) =? 0)%Z) by reflexivity.
+  destruct Hs as [Hs1 Hs2], Hc as [Hc1 Hc2], Hd as [Hd1 Hd2].
+  rewrite Hs1, Hs2, Hc1, Hc2, Hd1, Hd2, He. subst file.
+  split; [|split; [|split; [|split]]].
+  - destruct sig; simpl; split; intro H; try reflexivity; try discriminate.
+  - intros _. change 0%Z with (Z.of_nat (@List.length N [])).
+    replace (Z.of_nat (List.length sig) - 1)%Z with (Z.of_nat (@List.length N []) + Z.of_nat (List.length sig) - 1)%Z by (simpl; lia).
+    apply (slice_mid [] sig (ctl ++ dat)).
+  - apply slice_mid.
+  - replace (Z.of_nat (List.length sig) + Z.of_nat (List.length ctl))%Z with (Z.of_nat (List.length (sig ++ ctl))) by (rewrite app_length; lia).
+    rewrite app_assoc. rewrite <- (app_nil_r ((sig ++ ctl) ++ dat)). rewrite <- app_assoc.
+    apply (slice_mid (sig ++ ctl) dat []).
+  - intros Hcn Hdn. unfold RangesTile. rewrite Hs1, Hs2, Hc1, Hc2, Hd1, Hd2. rewrite !app_length.
+    assert (List.length ctl <> 0%nat) by (destruct ctl; simpl; congruence).
+    assert (List.length dat <> 0%nat) by (destruct dat; simpl; congruence).
+    destruct sig as [|s0 sig']; simpl negb; cbn [List.length]; repeat split; try lia.
+Qed.
+
+Lemma checksums_exact sha1 sha256 (b64 : list N -> string) (sig ctl dat : list N) :
+  let e := expand sha1 sha256 sig ctl dat in
+  s_checksum (control_section b64 e) = (lock_control_checksum_prefix ++ b64 (sha1 ctl))%string /\
+  s_checksum (data_section b64 e) = (lock_data_checksum_prefix ++ b64 (sha256 dat))%string /\
+  (sig <> [] -> s_checksum (signature_section b64 e) = (lock_signature_checksum_prefix ++ b64 (sha1 sig))%string) /\
+  (sig = [] -> signature_section b64 e = {| s_range := ""; s_checksum := "" |}) /\
+  s_range (control_section b64 e) =
+    fmt_s lock_control_range_format [dec (n_lo (control_nums e)); dec (n_hi (control_nums e))] /\
+  s_range (data_section b64 e) =
+    fmt_s lock_data_range_format [dec (n_lo (data_nums e)); dec (n_hi (data_nums e))] /\
+  (sig <> [] -> s_range (signature_section b64 e) =
+    fmt_s lock_signature_range_format [dec (n_hi (signature_nums e))]).
+Proof.
+  intros e. repeat split.
+  - intro Hs. destruct sig as [|s0 sig']; [congruence|]. reflexivity.
+  - intros ->. reflexivity.
+  - intro Hs. destruct sig as [|s0 sig']; [congruence|]. reflexivity.
+Qed.
+
+(* ---- c09_lock_install ------------------------------------------------------------ *)
+Definition to_installable (p : lock_pkg) : installable :=
+  {| i_name := lp_name p; i_url := lp_url p; i_checksum := lp_checksum p |}.
+Definition for_arch (arch : string) (pkgs : list lock_pkg) : list lock_pkg :=
+  filter (fun p => String.eqb (lp_arch p) arch) pkgs.
+
+Lemma installable_exact pkgs arch :
+  (forall l, installable_for_arch pkgs arch = Ok l ->
+     l = List.map to_installable (for_arch arch pkgs) /\
+     Forall (fun p => lp_checksum p <> "") (for_arch arch pkgs)) /\
+  (Forall (fun p => lp_checksum p <> "") (for_arch arch pkgs) ->
+     installable_for_arch pkgs arch = Ok (List.map to_installable (for_arch arch pkgs))) /\
+  installable_for_arch pkgs arch <> Panic /\ installable_for_arch pkgs arch <> OutOfFuel.
+Proof.
+  induction pkgs as [|p t IH].
+  - simpl. split; [|split; [|split]]; try congruence.
+    intros l0 H. inversion H. split; [reflexivity | constructor].
+  - destruct IH as (IH1 & IH2 & IH3 & IH4). unfold for_arch in *. cbn [installable_for_arch filter].
+    destruct (String.eqb (lp_arch p) arch) eqn:E; cbn [negb].
+    2:{ split; [exact IH1 | split; [exact IH2 | split; assumption]]. }
+    destruct (lp_checksum p) as [|c cs] eqn:Ec.
+    + split; [|split; [|split]]; try congruence.
+      intro F. inversion F as [|? ? Hp _]. congruence.
+    + destruct (installable_for_arch t arch) as [l'| | |] eqn:Er; cbn [rbind].
+      * destruct (IH1 l' eq_refl) as [El F]. split; [|split; [|split]]; try congruence.
+        -- intros l0 H. inversion H. subst. split.
+           ++ cbn [List.map]. unfold to_installable at 2. rewrite Ec. reflexivity.
+           ++ constructor; [congruence | exact F].
+        -- intros _. cbn [List.map]. unfold to_installable at 1. rewrite Ec, El. reflexivity.
+      * split; [|split; [|split]]; try congruence.
+        intro F. inversion F as [|? ? _ F']. specialize (IH2 F'). congruence.
+      * congruence.
+      * congruence.
+Qed.
+
+Section InstallProofs.
+  Context {P : Type} (fetch : installable -> option P).
+  Lemma install_packages_exact l ps :
+    install_packages fetch l = Ok ps -> List.map Some ps = List.map fetch l.
+  Proof.
+    revert ps. induction l as [|i t IH]; simpl; intros ps H.
+    - inversion H. reflexivity.
+    - destruct (fetch i) as [p|] eqn:E; [|discriminate].
+      destruct (install_packages fetch t) as [r| | |]; simpl in H; try discriminate.
+      inversion H; subst. simpl. f_equal. apply IH. reflexivity.
+  Qed.
+  Lemma build_from_lock_exact pkgs arch ps :
+    build_from_lock fetch pkgs arch = Ok ps ->
+    List.map Some ps = List.map fetch (List.map to_installable (for_arch arch pkgs)).
+  Proof.
+    unfold build_from_lock. destruct (installable_for_arch pkgs arch) as [l| | |] eqn:E; simpl; try discriminate.
+    intro H. destruct (installable_exact pkgs arch) as (H1 & _). destruct (H1 l E) as [-> _].
+    apply install_packages_exact. exact H.
+  Qed.
+End InstallProofs.
+
+(* ---- iteration-order independence of unify ------------------------------------------ *)
+Lemma fold_left_perm {A B} (f : A -> B -> A) :
+  (forall a x y, f (f a x) y = f (f a y) x) ->
+  forall l l', Permutation l l' -> forall a, fold_left f l a = fold_left f l' a.
+Proof.
+  intros C l l' P. induction P; intro a; simpl.
+  - reflexivity.
+  - apply IHP.
+  - rewrite C. reflexivity.
+  - rewrite IHP1. apply IHP2.
+Qed.
+
+Lemma alookup_filter_other {V} x y (m : list (string * V)) : x <> y ->
+  alookup y (filter (fun kv => negb (String.eqb x (fst kv))) m) = alookup y m.
+Proof.
+  intro Hne. induction m as [|[k v] m IH]; simpl; [reflexivity|].
+  destruct (String.eqb_spec x k); simpl.
+  - subst k. destruct (String.eqb_spec y x); [congruence | exact IH].
+  - destruct (String.eqb y k); [reflexivity | exact IH].
+Qed.
+Lemma vget_mdel_other x y m : x <> y -> vget y (mdel x m) = vget y m.
+Proof. intro H. unfold vget, mdel. rewrite (alookup_filter_other x y m H). reflexivity. Qed.
+
+Lemma alookup_supd_other x y o sl : x <> y -> alookup y (supd x o sl) = alookup y sl.
+Proof.
+  intro Hne. induction sl as [|[k v] sl IH]; simpl; [reflexivity|].
+  destruct (String.eqb_spec x k); simpl.
+  - subst k. destruct (String.eqb_spec y x); [congruence | exact IH].
+  - destruct (String.eqb y k); [reflexivity | exact IH].
+Qed.
+Lemma sget_supd_other x y o sl : x <> y -> sget y (supd x o sl) = sget y sl.
+Proof. intro H. unfold sget. rewrite (alookup_supd_other x y o sl H). reflexivity. Qed.
+
+Lemma supd_comm x y ox oy sl : x <> y -> supd y oy (supd x ox sl) = supd x ox (supd y oy sl).
+Proof.
+  intro Hne. unfold supd. rewrite !map_map. apply map_ext. intros [k v]. simpl.
+  destruct (String.eqb_spec x k); destruct (String.eqb_spec y k); simpl;
+    try (subst; congruence);
+    repeat match goal with
+           | |- context [String.eqb ?a ?b] => destruct (String.eqb_spec a b); try congruence
+           end.
+Qed.
+Lemma filter_comm {A} (f g : A -> bool) l : filter f (filter g l) = filter g (filter f l).
+Proof.
+  induction l as [|a l IH]; simpl; [reflexivity|].
+  destruct (f a) eqn:Ef, (g a) eqn:Eg; simpl; rewrite ?Ef, ?Eg, IH; reflexivity.
+Qed.
+
+(* the two decisions step_pkg takes only read the package's own key *)
+Definition pkg_del (next : resolved) (a : acc) (pkg : string) : bool :=
+  negb (String.eqb (vget pkg (a_versions a)) (vget pkg (r_versions next))).
+Definition pkg_cur (next : resolved) (a : acc) (pkg : string) : option (list string) :=
+  let cur := if pkg_del next a pkg then None else sget pkg (a_slots a) in
+  let cs := match cur with Some s => s | None => [] end in
+  let ns := pget pkg (r_provided next) in
+  if sequal cs ns then cur else Some (sinter cs ns).
+Lemma step_pkg_eq next a pkg :
+  step_pkg next a pkg =
+  {| a_packages := if pkg_del next a pkg then sdel pkg (a_packages a) else a_packages a;
+     a_versions := if pkg_del next a pkg then mdel pkg (a_versions a) else a_versions a;
+     a_slots := supd pkg (pkg_cur next a pkg) (a_slots a) |}.
+Proof. reflexivity. Qed.
+
+Lemma pkg_del_other next a x y : x <> y -> pkg_del next (step_pkg next a x) y = pkg_del next a y.
+Proof.
+  intro H. rewrite step_pkg_eq. unfold pkg_del. simpl.
+  destruct (negb (String.eqb (vget x (a_versions a)) (vget x (r_versions next))));
+    [rewrite (vget_mdel_other x y _ H)|]; reflexivity.
+Qed.
+Lemma pkg_cur_other next a x y : x <> y -> pkg_cur next (step_pkg next a x) y = pkg_cur next a y.
+Proof.
+  intro H. unfold pkg_cur. rewrite (pkg_del_other next a x y H).
+  rewrite step_pkg_eq. simpl. rewrite (sget_supd_other x y _ _ H). reflexivity.
+Qed.
+
+Lemma step_pkg_comm next a x y :
+  step_pkg next (step_pkg next a x) y = step_pkg next (step_pkg next a y) x.
+Proof.
+  destruct (String.eqb_spec x y) as [->|Hne]; [reflexivity|].
+  assert (Hne' : y <> x) by congruence.
+  rewrite (step_pkg_eq next (step_pkg next a x) y), (step_pkg_eq next (step_pkg next a y) x).
+  rewrite (pkg_del_other next a x y Hne), (pkg_del_other next a y x Hne').
+  rewrite (pkg_cur_other next a x y Hne), (pkg_cur_other next a y x Hne').
+  rewrite !step_pkg_eq. simpl.
+  f_equal.
+  - destruct (pkg_del next a x), (pkg_del next a y); try reflexivity. unfold sdel. apply filter_comm.
+  - destruct (pkg_del next a x), (pkg_del next a y); try reflexivity. unfold mdel. apply filter_comm.
+  - apply supd_comm. exact Hne.
+Qed.
+
+Definition perm_ord (ord : nat -> list string -> list string) : Prop := forall i l, Permutation (ord i l) l.
+Definition perm_ordp (ordp : list (list string) -> list (list string)) : Prop := forall l, Permutation (ordp l) l.
+
+Lemma step_arch_ord o o' a next :
+  (forall l, Permutation (o l) l) -> (forall l, Permutation (o' l) l) ->
+  step_arch o a next = step_arch o' a next.
+Proof.
+  intros H H'. unfold step_arch.
+  destruct (vmap_eq (a_versions a) (r_versions next) && pmap_eq (present (a_slots a)) (r_provided next)); [reflexivity|].
+  cbv zeta. apply fold_left_perm; [apply step_pkg_comm|].
+  rewrite H, H'. reflexivity.
+Qed.
+Lemma steps_ord ord ord' : perm_ord ord -> perm_ord ord' ->
+  forall rest i a, steps ord i a rest = steps ord' i a rest.
+Proof.
+  intros H H'. induction rest as [|next rest IH]; intros i a; simpl; [reflexivity|].
+  rewrite (step_arch_ord (ord i) (ord' i) a next (H i) (H' i)). apply IH.
+Qed.
+
+Lemma filter_true_id {A} (f : A -> bool) l : (forall x, In x l -> f x = true) -> filter f l = l.
+Proof.
+  induction l as [|a l IH]; simpl; intro H; [reflexivity|].
+  rewrite (H a (or_introl eq_refl)). f_equal. apply IH. intros x Hx. apply H. right. exact Hx.
+Qed.
+Lemma filter_filter {A} (f g : A -> bool) l : filter f (filter g l) = filter (fun x => g x && f x) l.
+Proof.
+  induction l as [|a l IH]; simpl; [reflexivity|].
+  destruct (g a); simpl; [destruct (f a); rewrite IH; reflexivity | exact IH].
+Qed.
+
+(* what the range over acc.provided computes, whatever its order *)
+Definition elide_spec (provs : list (list string)) (missing : list string) : list string :=
+  filter (fun x => negb (existsb (fun p => smem x p) provs)) missing.
+Lemma elide_is_spec provs : forall missing, elide provs missing = elide_spec provs missing.
+Proof.
+  unfold elide, elide_spec. induction provs as [|p provs IH]; intro m; simpl.
+  - symmetry. apply filter_true_id. reflexivity.
+  - assert (E : (if shas_any p m then sdiff m p else m) = sdiff m p).
+    { destruct (shas_any p m) eqn:Eh; [reflexivity|]. symmetry. unfold sdiff. apply filter_true_id.
+      intros x Hx. unfold shas_any in Eh. destruct (smem x p) eqn:Ex; [|reflexivity].
+      assert (existsb (fun x => smem x p) m = true) by (apply existsb_exists; exists x; auto). congruence. }
+    rewrite E, IH. unfold sdiff. rewrite filter_filter. apply filter_ext. intro x.
+    destruct (smem x p); reflexivity.
+Qed.
+Lemma existsb_perm {A} (f : A -> bool) l l' : Permutation l l' -> existsb f l = existsb f l'.
+Proof.
+  intro P. destruct (existsb f l) eqn:E.
+  - symmetry. apply existsb_exists in E. destruct E as (x & Hx & Fx). apply existsb_exists. exists x.
+    split; [eapply Permutation_in; eassumption | exact Fx].
+  - destruct (existsb f l') eqn:E'; [|reflexivity]. apply existsb_exists in E'. destruct E' as (x & Hx & Fx).
+    assert (existsb f l = true) by (apply existsb_exists; exists x; split; [eapply Permutation_in; [apply Permutation_sym; eassumption|exact Hx] | exact Fx]).
+    congruence.
+Qed.
+Lemma elide_perm provs provs' m : Permutation provs provs' -> elide provs m = elide provs' m.
+Proof.
+  intro P. rewrite !elide_is_spec. unfold elide_spec. apply filter_ext. intro x.
+  rewrite (existsb_perm _ _ _ P). reflexivity.
+Qed.
+
+Theorem unify_order_independent ord ord' ordp ordp' originals inputs :
+  perm_ord ord -> perm_ord ord' -> perm_ordp ordp -> perm_ordp ordp' ->
+  unify ord ordp originals inputs = unify ord' ordp' originals inputs.
+Proof.
+  intros H H' Hp Hp'. unfold unify.
+  destruct originals as [|o0 os]; [reflexivity|]. destruct inputs as [|r0 rest]; [reflexivity|].
+  rewrite (steps_ord ord ord' H H' rest 0 (init_acc r0)).
+  set (a := steps ord' 0 (init_acc r0) rest).
+  set (m0 := sdiff (o_packages (parse_originals (o0 :: os))) (a_packages a)).
+  assert (E : elide (ordp (List.map snd (present (a_slots a)))) m0 = elide (ordp' (List.map snd (present (a_slots a)))) m0).
+  { apply elide_perm. eapply Permutation_trans; [apply Hp | apply Permutation_sym, Hp']. }
+  destruct m0; [reflexivity|]. rewrite E. reflexivity.
+Qed.
+
+(* ---- what unify puts into the shared and the per-architecture lists ------------------ *)
+Definition unify_pin (originals : list string) (n : string) : string :=
+  vget n (o_pinned (parse_originals originals)).
+
+Lemma fmt_entry a b : fmt_s unify_index_entry_format [a; b] = (a ++ "=" ++ b)%string /\
+                      fmt_s unify_arch_entry_format [a; b] = (a ++ "=" ++ b)%string.
+Proof. split; cbn; rewrite sapp_nil_r; reflexivity. Qed.
+Lemma fmt_pin a b : fmt_s unify_index_pin_format [a; b] = (a ++ b)%string /\
+                    fmt_s unify_arch_pin_format [a; b] = (a ++ b)%string.
+Proof. split; cbn; rewrite sapp_nil_r; reflexivity. Qed.
+
+Lemma sapp_assoc (a b c : string) : ((a ++ b) ++ c)%string = (a ++ b ++ c)%string.
+Proof. induction a as [|x a IH]; simpl; [reflexivity | rewrite IH; reflexivity]. Qed.
+
+Lemma entry_is_lock_entry versions o n :
+  entry unify_index_entry_format unify_index_pin_format versions o n = lock_entry (fun n => vget n (o_pinned o)) versions n /\
+  entry unify_arch_entry_format unify_arch_pin_format versions o n = lock_entry (fun n => vget n (o_pinned o)) versions n.
+Proof.
+  unfold entry, lock_entry.
+  destruct (fmt_entry n (vget n versions)) as [E1 E2]. rewrite E1, E2.
+  destruct (vget n (o_pinned o)) as [|c p] eqn:Ep.
+  - rewrite !sapp_nil_r. split; reflexivity.
+  - destruct (fmt_pin (n ++ "=" ++ vget n versions)%string (String c p)) as [F1 F2]. rewrite F1, F2.
+    rewrite !sapp_assoc. simpl. split; reflexivity.
+Qed.
+
+Definition wf_resolved (r : resolved) : Prop := forall n, In n (r_packages r) <-> In n (akeys (r_versions r)).
+Definition agrees (r0 r : resolved) (p : string) : Prop :=
+  In p (r_packages r) /\ vget p (r_versions r) = vget p (r_versions r0).
+
+Record inv (r0 : resolved) (done : list resolved) (a : acc) : Prop := {
+  inv_sound : forall p, In p (a_packages a) ->
+      In p (r_packages r0) /\ vget p (a_versions a) = vget p (r_versions r0) /\
+      alookup p (a_versions a) <> None /\ forall r, In r done -> agrees r0 r p;
+  inv_complete : forall p, In p (r_packages r0) -> (forall r, In r done -> agrees r0 r p) -> In p (a_packages a)
+}.
+
+Lemma sdel_In x p l : In p (sdel x l) <-> In p l /\ p <> x.
+Proof.
+  unfold sdel. rewrite filter_In. split; intros [H1 H2]; split; auto.
+  - intros ->. rewrite String.eqb_refl in H2. discriminate.
+  - destruct (String.eqb_spec x p); [congruence | reflexivity].
+Qed.
+
+Lemma step_pkg_packages next a x p :
+  In p (a_packages (step_pkg next a x)) <-> In p (a_packages a) /\ (p = x -> pkg_del next a x = false).
+Proof.
+  rewrite step_pkg_eq. simpl. destruct (pkg_del next a x).
+  - rewrite sdel_In. split; intros [H1 H2]; split; auto.
+    + intro E. contradiction.
+    + intro E. specialize (H2 E). discriminate.
+  - tauto.
+Qed.
+Lemma step_pkg_versions next a x p :
+  p <> x \/ pkg_del next a x = false ->
+  alookup p (a_versions (step_pkg next a x)) = alookup p (a_versions a).
+Proof.
+  intro H. rewrite step_pkg_eq. simpl. destruct (pkg_del next a x) eqn:D; [|reflexivity].
+  destruct H as [H|H]; [|discriminate]. unfold mdel. apply alookup_filter_other. congruence.
+Qed.
+Lemma pkg_del_after next a x p :
+  p <> x \/ pkg_del next a x = false -> pkg_del next (step_pkg next a x) p = pkg_del next a p.
+Proof.
+  intro H. unfold pkg_del, vget. rewrite (step_pkg_versions next a x p H). reflexivity.
+Qed.
+
+Lemma fold_pkgs next : forall l a,
+  (forall p, In p (a_packages (fold_left (step_pkg next) l a)) <->
+             In p (a_packages a) /\ (In p l -> pkg_del next a p = false)) /\
+  (forall p, In p (a_packages (fold_left (step_pkg next) l a)) ->
+             alookup p (a_versions (fold_left (step_pkg next) l a)) = alookup p (a_versions a)).
+Proof.
+  induction l as [|x l IH]; intro a; simpl.
+  - split; [intro p; tauto | reflexivity].
+  - destruct (IH (step_pkg next a x)) as [IH1 IH2]. split.
+    + intro p. rewrite IH1, step_pkg_packages. split.
+      * intros [[Hp Hx] Hl]. split; [exact Hp|]. intros [E|Hin].
+        -- subst x. apply Hx. reflexivity.
+        -- destruct (String.eqb_spec p x) as [->|Hne].
+           ++ apply Hx. reflexivity.
+           ++ rewrite <- (pkg_del_after next a x p (or_introl Hne)). apply Hl. exact Hin.
+      * intros [Hp Hall]. split; [split; [exact Hp|]|].
+        -- intros ->. apply Hall. left. reflexivity.
+        -- intro Hin. destruct (String.eqb_spec p x) as [->|Hne].
+           ++ rewrite (pkg_del_after next a x x); [|right]; apply Hall; left; reflexivity.
+           ++ rewrite (pkg_del_after next a x p (or_introl Hne)). apply Hall. right. exact Hin.
+    + intros p Hp. rewrite (IH2 p Hp). apply IH1 in Hp. destruct Hp as [Hp _].
+      apply step_pkg_packages in Hp. destruct Hp as [_ Hx].
+      apply step_pkg_versions. destruct (String.eqb_spec p x) as [->|Hne]; [right; apply Hx; reflexivity | left; exact Hne].
+Qed.
+
+Lemma alookup_some_in_keys {V} k (v : V) m : alookup k m = Some v -> In k (akeys m).
+Proof.
+  intro H. destruct (in_dec string_dec k (akeys m)) as [I|N]; [exact I|].
+  apply alookup_none in N. congruence.
+Qed.
+
+Lemma vmap_eq_agree a b p v : vmap_eq a b = true -> alookup p a = Some v -> alookup p b = Some v.
+Proof.
+  unfold vmap_eq. intros H E. apply andb_true_iff in H. destruct H as [_ H].
+  rewrite forallb_forall in H. specialize (H (p, v) (alookup_in _ _ _ E)). simpl in H.
+  destruct (alookup p b) as [v'|]; [|discriminate]. apply String.eqb_eq in H. congruence.
+Qed.
+
+Lemma step_arch_inv r0 done a next o :
+  (forall l, Permutation (o l) l) -> wf_resolved next ->
+  inv r0 done a -> inv r0 (done ++ [next]) (step_arch o a next).
+Proof.
+  intros Ho Wn [Is Ic]. unfold step_arch.
+  destruct (vmap_eq (a_versions a) (r_versions next) && pmap_eq (present (a_slots a)) (r_provided next)) eqn:Sh.
+  - (* the DeepEqual shortcut *)
+    apply andb_true_iff in Sh. destruct Sh as [Sv _]. split.
+    + intros p Hp. destruct (Is p Hp) as (H0 & Hv & Hn & Hd).
+      split; [exact H0 | split; [exact Hv | split; [exact Hn|]]].
+      intros r Hr. apply in_app_or in Hr. destruct Hr as [Hr|[<-|[]]]; [apply Hd; exact Hr|].
+      destruct (alookup p (a_versions a)) as [v|] eqn:E; [|congruence].
+      pose proof (vmap_eq_agree _ _ _ _ Sv E) as E'. split.
+      * apply Wn. eapply alookup_some_in_keys. exact E'.
+      * rewrite <- Hv. unfold vget. rewrite E, E'. reflexivity.
+    + intros p H0 Hall. apply Ic; [exact H0|]. intros r Hr. apply Hall. apply in_or_app. left. exact Hr.
+  - cbv zeta.
+    set (a1 := {| a_packages := sdiff (a_packages a) (sdiff (a_packages a) (r_packages next));
+                  a_versions := a_versions a; a_slots := a_slots a |}).
+    assert (H1 : forall p, In p (a_packages a1) <-> In p (a_packages a) /\ In p (r_packages next)).
+    { intro p. simpl. unfold sdiff. rewrite !filter_In. split.
+      - intros [Hp Hn]. split; [exact Hp|]. apply negb_true_iff, smem_false in Hn.
+        destruct (in_dec string_dec p (r_packages next)) as [I|N]; [exact I|].
+        exfalso. apply Hn. apply filter_In. split; [exact Hp|]. apply negb_true_iff, smem_false. exact N.
+      - intros [Hp Hn]. split; [exact Hp|]. apply negb_true_iff, smem_false. intro F.
+        apply filter_In in F. destruct F as [_ F]. apply negb_true_iff, smem_false in F. contradiction. }
+    destruct (fold_pkgs next (o (a_packages a1)) a1) as [F1 F2].
+    assert (Hl : forall p, In p (o (a_packages a1)) <-> In p (a_packages a1)).
+    { intro p. split; intro H; [eapply Permutation_in; [apply Ho|exact H] | eapply Permutation_in; [apply Permutation_sym, Ho|exact H]]. }
+    split.
+    + intros p Hp. pose proof (F2 p Hp) as Ev. apply F1 in Hp. destruct Hp as [Hp Hd].
+      specialize (Hd (proj2 (Hl p) Hp)). apply H1 in Hp. destruct Hp as [Hpa Hpn].
+      destruct (Is p Hpa) as (H0 & Hv & Hn & Hdone).
+      change (a_versions a1) with (a_versions a) in Ev.
+      split; [exact H0 | split; [|split]].
+      * unfold vget. rewrite Ev. exact Hv.
+      * rewrite Ev. exact Hn.
+      * intros r Hr. apply in_app_or in Hr. destruct Hr as [Hr|[<-|[]]]; [apply Hdone; exact Hr|].
+        split; [exact Hpn|]. unfold pkg_del in Hd. apply negb_false_iff, String.eqb_eq in Hd.
+        simpl in Hd. rewrite <- Hd. exact Hv.
+    + intros p H0 Hall. apply F1.
+      assert (Hpa : In p (a_packages a)).
+      { apply Ic; [exact H0|]. intros r Hr. apply Hall. apply in_or_app. left. exact Hr. }
+      assert (Hnx : In next (done ++ [next])) by (apply in_or_app; right; left; reflexivity).
+      destruct (Hall next Hnx) as [Hpn Hvn].
+      split; [apply H1; split; assumption|]. intros _.
+      unfold pkg_del. apply negb_false_iff, String.eqb_eq. simpl.
+      destruct (Is p Hpa) as (_ & Hv & _). rewrite Hv, Hvn. reflexivity.
+Qed.
+
+Lemma steps_inv r0 ord : perm_ord ord -> forall rest done i a,
+  Forall wf_resolved rest -> inv r0 done a -> inv r0 (done ++ rest) (steps ord i a rest).
+Proof.
+  intro Ho. induction rest as [|next rest IH]; intros done i a W I; simpl.
+  - rewrite app_nil_r. exact I.
+  - inversion W as [|? ? Wn Wr]; subst.
+    replace (done ++ next :: rest) with ((done ++ [next]) ++ rest) by (rewrite <- app_assoc; reflexivity).
+    apply IH; [exact Wr|]. apply step_arch_inv; auto.
+Qed.
+
+Lemma init_inv r0 : wf_resolved r0 -> inv r0 [] (init_acc r0).
+Proof.
+  intro W. split; simpl.
+  - intros p Hp. split; [exact Hp | split; [reflexivity | split; [|intros r []]]].
+    apply W in Hp. intro E. apply alookup_none in E. contradiction.
+  - intros p Hp _. exact Hp.
+Qed.
+
+(* lookups in a map built by successive stores *)
+Lemma alookup_mset_same {V} k (v : V) m : alookup k (mset k v m) = Some v.
+Proof.
+  induction m as [|[k' v'] m IH]; simpl; [rewrite String.eqb_refl; reflexivity|].
+  destruct (String.eqb_spec k k'); simpl; [rewrite String.eqb_refl; reflexivity|].
+  destruct (String.eqb_spec k k'); [contradiction | exact IH].
+Qed.
+Lemma alookup_mset_other {V} k k' (v : V) m : k <> k' -> alookup k' (mset k v m) = alookup k' m.
+Proof.
+  intro Hne. induction m as [|[k2 v2] m IH]; simpl.
+  - destruct (String.eqb_spec k' k); [congruence | reflexivity].
+  - destruct (String.eqb_spec k k2); simpl.
+    + subst k2. destruct (String.eqb_spec k' k); [congruence | reflexivity].
+    + destruct (String.eqb k' k2); [reflexivity | exact IH].
+Qed.
+Section FoldMset.
+  Context {R V : Type} (key : R -> string) (val : R -> V).
+  Lemma fold_mset_notin l : forall m k, ~ In k (List.map key l) ->
+    alookup k (fold_left (fun m r => mset (key r) (val r) m) l m) = alookup k m.
+  Proof.
+    induction l as [|x l IH]; intros m k H; simpl; [reflexivity|].
+    rewrite IH; [|intro F; apply H; right; exact F].
+    apply alookup_mset_other. intro E. apply H. left. exact E.
+  Qed.
+  Lemma fold_mset_in l : forall m r, NoDup (List.map key l) -> In r l ->
+    alookup (key r) (fold_left (fun m r => mset (key r) (val r) m) l m) = Some (val r).
+  Proof.
+    induction l as [|x l IH]; intros m r ND Hr; simpl; [contradiction|].
+    inversion ND as [|? ? Nin ND']; subst. destruct Hr as [->|Hr].
+    - rewrite fold_mset_notin; [apply alookup_mset_same | exact Nin].
+    - apply IH; assumption.
+  Qed.
+End FoldMset.
+
+Lemma unify_ok_shape ord ordp o0 os r0 rest bya mba :
+  unify ord ordp (o0 :: os) (r0 :: rest) = Ok (bya, mba) ->
+  let o := parse_originals (o0 :: os) in
+  let a := steps ord 0 (init_acc r0) rest in
+  bya = fold_left (fun m r =>
+          mset (r_arch r) (sort_strings (List.map (entry unify_arch_entry_format unify_arch_pin_format (r_versions r) o) (r_packages r))) m)
+          (r0 :: rest)
+          [(unify_index_key, sort_strings (List.map (entry unify_index_entry_format unify_index_pin_format (a_versions a) o) (a_packages a)))].
+Proof.
+  unfold unify. cbv zeta.
+  destruct (match sdiff _ _ with [] => [] | _ :: _ => _ end); [|discriminate].
+  intro H. inversion H. reflexivity.
+Qed.
+
+Theorem unify_index_exact ord ordp originals r0 rest bya mba :
+  perm_ord ord -> originals <> [] ->
+  Forall wf_resolved (r0 :: rest) ->
+  ~ In unify_index_key (List.map r_arch (r0 :: rest)) ->
+  unify ord ordp originals (r0 :: rest) = Ok (bya, mba) ->
+  exists idx, alookup unify_index_key bya = Some idx /\ StronglySorted sle idx /\
+    forall e, In e idx <->
+      exists n, In n (r_packages r0) /\ e = lock_entry (unify_pin originals) (r_versions r0) n /\
+                forall r, In r rest -> agrees r0 r n.
+Proof.
+  intros Ho Hne W Nidx H. destruct originals as [|o0 os]; [congruence|].
+  pose proof (unify_ok_shape _ _ _ _ _ _ _ _ H) as Eb. cbv zeta in Eb.
+  set (o := parse_originals (o0 :: os)) in *. set (a := steps ord 0 (init_acc r0) rest) in *.
+  exists (sort_strings (List.map (entry unify_index_entry_format unify_index_pin_format (a_versions a) o) (a_packages a))).
+  split; [|split].
+  - rewrite Eb. rewrite (fold_mset_notin r_arch _ (r0 :: rest) _ unify_index_key Nidx).
+    cbn [alookup]. rewrite String.eqb_refl. reflexivity.
+  - apply sort_strings_sorted.
+  - inversion W as [|? ? W0 Wr]; subst.
+    pose proof (steps_inv r0 ord Ho rest [] 0 (init_acc r0) Wr (init_inv r0 W0)) as [Is Ic]. simpl in Is, Ic.
+    fold a in Is, Ic. intro e. split.
+    + intro He. eapply Permutation_in in He; [|apply Permutation_sym, sort_strings_perm].
+      apply in_map_iff in He. destruct He as (n & <- & Hn). destruct (Is n Hn) as (H0 & Hv & _ & Hd).
+      exists n. split; [exact H0|]. split; [|exact Hd].
+      rewrite (proj1 (entry_is_lock_entry (a_versions a) o n)). unfold lock_entry, unify_pin. fold o. rewrite Hv. reflexivity.
+    + intros (n & H0 & -> & Hd). eapply Permutation_in; [apply sort_strings_perm|].
+      apply in_map_iff. exists n. split; [|apply Ic; assumption].
+      destruct (Is n (Ic n H0 Hd)) as (_ & Hv & _).
+      rewrite (proj1 (entry_is_lock_entry (a_versions a) o n)). unfold lock_entry, unify_pin. fold o. rewrite Hv. reflexivity.
+Qed.
+
+Theorem unify_per_arch_exact ord ordp originals inputs bya mba :
+  originals <> [] -> NoDup (List.map r_arch inputs) -> ~ In unify_index_key (List.map r_arch inputs) ->
+  unify ord ordp originals inputs = Ok (bya, mba) ->
+  forall r, In r inputs ->
+    alookup (r_arch r) bya = Some (sort_strings (List.map (lock_entry (unify_pin originals) (r_versions r)) (r_packages r))).
+Proof.
+  intros Hne ND Nidx H r Hr. destruct originals as [|o0 os]; [congruence|].
+  destruct inputs as [|r0 rest]; [contradiction|].
+  pose proof (unify_ok_shape _ _ _ _ _ _ _ _ H) as Eb. cbv zeta in Eb. rewrite Eb.
+  rewrite (fold_mset_in r_arch _ (r0 :: rest) _ r ND Hr). f_equal. f_equal.
+  apply map_ext. intro n. apply (proj2 (entry_is_lock_entry (r_versions r) _ n)).
+Qed.
+
+(* the shared list when nothing was requested *)
+Lemma unify_no_originals ord ordp inputs : unify ord ordp [] inputs = Ok ([(unify_index_key, [])], []).
+Proof. reflexivity. Qed.
+
+(* ---- c09_lock_entries_exact ------------------------------------------------------------ *)
+From Apko Require Import Proofs.ConstraintProofs Generated.VersionConsts Generated.C03Version.
+
+(* what filterPackages checks of one candidate for an "=" entry with required version [req] *)
+Definition Admits (req : mver) (k : cand) : Prop :=
+  exists av, parse_version (k_version k) = Some av /\
+    (satisfies dep_versionEqual av req = true \/
+     exists prov pv, In prov (k_provides k) /\
+       c_version (resolve_constraint prov) <> "" /\
+       parse_version (c_version (resolve_constraint prov)) = Some pv /\
+       satisfies dep_versionEqual pv req = true).
+
+Lemma version_admits_iff req k : version_admits dep_versionEqual req k = true <-> Admits req k.
+Proof.
+  unfold version_admits, Admits. destruct (parse_version (k_version k)) as [av|].
+  - rewrite orb_true_iff, existsb_exists. split.
+    + intros [H|(prov & Hp & H)]; exists av; split; auto. right.
+      destruct (c_version (resolve_constraint prov)) as [|c0 v0] eqn:Ev; [discriminate|].
+      destruct (parse_version (String c0 v0)) as [pv|] eqn:Epv; [|discriminate].
+      exists prov, pv. rewrite Ev. repeat split; auto. discriminate.
+    + intros (av' & E & [H|(prov & pv & Hp & Hne & Epv & H)]); inversion E; subst; auto.
+      right. exists prov. split; [exact Hp|].
+      destruct (c_version (resolve_constraint prov)) as [|c0 v0]; [congruence|]. rewrite Epv. exact H.
+  - split; [discriminate|]. intros (av & E & _). discriminate.
+Qed.
+
+Lemma bytes_of_string_app a b : bytes_of_string (a ++ b)%string = bytes_of_string a ++ bytes_of_string b.
+Proof.
+  unfold bytes_of_string. induction a as [|c a IH]; simpl; [reflexivity|]. f_equal. exact IH.
+Qed.
+
+(* a lock entry name=version, for a name and a version free of the grammar's delimiters *)
+Definition clean_name (name : string) : Prop :=
+  bytes_of_string name <> [] /\ forallb is_namechar (bytes_of_string name) = true /\
+  strip_prefix (bytes_of_string "so:") (bytes_of_string name) = None.
+Definition clean_version (v : string) : Prop :=
+  bytes_of_string v <> [] /\ forallb not_at (bytes_of_string v) = true /\
+  match bytes_of_string v with c :: _ => is_opchar c = false | [] => True end.
+
+Lemma strip_prefix_app_none (pre a b : list N) : (List.length pre <= List.length a)%nat ->
+  strip_prefix pre a = None -> strip_prefix pre (a ++ b) = None.
+Proof.
+  revert a. induction pre as [|x pre IH]; intros a Hl H; simpl in *; [discriminate|].
+  destruct a as [|y a]; simpl in *; [lia|]. destruct (x =? y)%N; [apply IH; [lia|exact H] | reflexivity].
+Qed.
+
+Lemma lock_entry_parses name v : clean_name name -> clean_version v ->
+  resolve_constraint (name ++ "=" ++ v) =
+    {| c_name := name; c_version := v; c_dep := dep_versionEqual; c_pin := "" |}.
+Proof.
+  intros (Hn1 & Hn2 & Hn3) (Hv1 & Hv2 & Hv3).
+  assert (Eb : bytes_of_string (name ++ "=" ++ v) = bytes_of_string name ++ [61%N] ++ bytes_of_string v ++ pin_tail []).
+  { rewrite !bytes_of_string_app. simpl. rewrite app_nil_r. reflexivity. }
+  rewrite (resolve_clean (name ++ "=" ++ v) (bytes_of_string name) [61%N] (bytes_of_string v) [] Eb).
+  - rewrite !string_of_bytes_of_string. reflexivity.
+  - unfold no_so_prefix. rewrite Eb. change (bytes_of_string "so:") with [115; 111; 58]%N in *.
+    destruct (bytes_of_string name) as [|c0 [|c1 [|c2 t]]] eqn:En; try congruence.
+    + (* one-byte name: the next byte is '=' *)
+      cbn [strip_prefix app]. destruct (115 =? c0)%N; reflexivity.
+    + cbn [strip_prefix app]. destruct (115 =? c0)%N; [|reflexivity]. destruct (111 =? c1)%N; reflexivity.
+    + apply strip_prefix_app_none; [simpl; lia | exact Hn3].
+  - constructor.
+    + pose proof Eb as Eb'. unfold pin_tail in Eb'. rewrite <- Eb'. apply bytes_are_bytes.
+    + split; assumption.
+    + split; [discriminate | reflexivity].
+    + split; [exact Hv1 | split; [exact Hv2 | exact Hv3]].
+    + reflexivity.
+Qed.
+
+Theorem lock_entry_admits_exactly name v (cands : list cand) (k : cand) :
+  clean_name name -> clean_version v ->
+  In k (filter_for (resolve_constraint (name ++ "=" ++ v)) cands) <->
+  In k cands /\ k_dq k = false /\ k_pinned k = "" /\
+  exists req, parse_version v = Some req /\ Admits req k.
+Proof.
+  intros Hn Hv. rewrite (lock_entry_parses name v Hn Hv). unfold filter_for. cbn [c_dep c_version c_pin].
+  change (dep_versionEqual =? dep_versionAny)%Z with false. cbv iota.
+  destruct (parse_version v) as [req|].
+  - rewrite filter_In, !andb_true_iff, negb_true_iff, orb_true_iff, version_admits_iff, !String.eqb_eq. split.
+    + intros (Hin & (Hd & Hp) & Ha). repeat split; auto; [tauto | exists req; auto].
+    + intros (Hin & Hd & Hp & req' & E & Ha). inversion E; subst. auto.
+  - split; [intros [] | intros (_ & _ & _ & req & E & _); discriminate].
+Qed.
+
+(* where the round trip can fail: the entry b=1.0-r0 also admits a package with
+   another name that merely provides b and, separately, something at 1.0-r0 *)
+Lemma lock_entry_admits_foreign :
+  let q := {| k_name := "q"; k_version := "5.0-r0"; k_provides := ["b"; "zz=1.0-r0"]; k_deps := [];
+              k_pinned := ""; k_dq := false |} in
+  In q (filter_for (resolve_constraint "b=1.0-r0") [q]).
+Proof. vm_compute. left. reflexivity. Qed.
+
+(* ---- c09_fixpoint ------------------------------------------------------------------------ *)
+Section LockFixpoint.
+  Variable U : list cand.                               (* every package of every repository *)
+  Variable resolve : list string -> option (list cand). (* the resolver over U: world -> install set *)
+
+  Definition admitted (w : string) (k : cand) : Prop :=
+    In k (filter_for (resolve_constraint w) (cands_of U (c_name (resolve_constraint w)))).
+  Definition is_negative (d : string) : bool := match d with String "!" _ => true | _ => false end.
+  Definition closed (S : list cand) : Prop :=
+    forall k, In k S -> forall d, In d (k_deps k) -> is_negative d = false -> exists k', In k' S /\ admitted d k'.
+  Definition solution (W : list string) (S : list cand) : Prop :=
+    incl S U /\ (forall w, In w W -> exists k, In k S /\ admitted w k) /\ closed S.
+
+  (* the full statement *)
+  Definition Fixpoint_statement : Prop :=
+    forall W S, resolve W = Some S ->
+      exists R, resolve (lock_of S) = Some R /\ forall k, In k R <-> In k S.
+
+  (* what is assumed of the resolver *)
+  Hypothesis resolve_sound : forall W S, resolve W = Some S -> solution W S.
+  Hypothesis resolve_minimal : forall W S S', resolve W = Some S -> solution W S' -> incl S' S -> incl S S'.
+  Hypothesis resolve_finds_locked : forall S, solution (lock_of S) S -> exists R, resolve (lock_of S) = Some R.
+
+  Theorem fixpoint_partial W S :
+    resolve W = Some S ->
+    (forall k, In k S -> admitted (lock_entry_of k) k) ->
+    (forall k k', In k S -> In k' U -> admitted (lock_entry_of k) k' -> k' = k) ->
+    exists R, resolve (lock_of S) = Some R /\ forall k, In k R <-> In k S.
+  Proof.
+    intros HW Hself Honly. destruct (resolve_sound W S HW) as (HU & _ & Hcl).
+    assert (Hsol : solution (lock_of S) S).
+    { split; [exact HU | split; [|exact Hcl]]. intros w Hw. apply in_map_iff in Hw.
+      destruct Hw as (k & <- & Hk). exists k. split; [exact Hk | apply Hself; exact Hk]. }
+    destruct (resolve_finds_locked S Hsol) as (R & HR). exists R. split; [exact HR|].
+    destruct (resolve_sound _ _ HR) as (HRU & HRw & _).
+    assert (HSR : incl S R).
+    { intros k Hk. destruct (HRw (lock_entry_of k)) as (k' & Hk' & Ha); [apply in_map; exact Hk|].
+      rewrite <- (Honly k k' Hk (HRU k' Hk') Ha). exact Hk'. }
+    intro k. split; [apply (resolve_minimal _ R S HR Hsol HSR) | apply HSR].
+  Qed.
+End LockFixpoint.
+
+(* ---- the order of the architectures --------------------------------------------------------- *)
+Lemma unify_arch_order_refuted :
+  let r1 := resolved_of "amd64" [{| p_name := "p1"; p_version := "1.0-r0"; p_provides := ["v=9.0"] |}] in
+  let r2 := resolved_of "arm64" [{| p_name := "v"; p_version := "1.0-r0"; p_provides := [] |}] in
+  unify id_ord id_ordp ["v"] [r1; r2] = Ok ([("index", []); ("amd64", ["p1=1.0-r0"]); ("arm64", ["v=1.0-r0"])],
+                                            [("amd64", ["p1"]); ("arm64", ["v"])]) /\
+  unify id_ord id_ordp ["v"] [r2; r1] = Err.
+Proof. split; vm_compute; reflexivity. Qed.
+
+(* the per-architecture lists do not depend on the order of the inputs *)
+Lemma unify_arch_order_partial ord ordp originals inputs inputs' bya mba bya' mba' :
+  originals <> [] -> Permutation inputs inputs' ->
+  NoDup (List.map r_arch inputs) -> ~ In unify_index_key (List.map r_arch inputs) ->
+  unify ord ordp originals inputs = Ok (bya, mba) ->
+  unify ord ordp originals inputs' = Ok (bya', mba') ->
+  forall r, In r inputs -> alookup (r_arch r) bya = alookup (r_arch r) bya'.
+Proof.
+  intros Hne P ND Nidx H H' r Hr.
+  rewrite (unify_per_arch_exact _ _ _ _ _ _ Hne ND Nidx H r Hr).
+  assert (ND' : NoDup (List.map r_arch inputs')) by (eapply Permutation_NoDup; [apply Permutation_map; exact P | exact ND]).
+  assert (Nidx' : ~ In unify_index_key (List.map r_arch inputs')).
+  { intro F. apply Nidx. eapply Permutation_in; [apply Permutation_sym, Permutation_map; exact P | exact F]. }
+  rewrite (unify_per_arch_exact _ _ _ _ _ _ Hne ND' Nidx' H' r (Permutation_in _ P Hr)). reflexivity.
+Qed.
